@@ -106,6 +106,8 @@ def gen_cfg(rng, family=None):
         nets.append(dict(type=rng.choice(['random', 'mf']), n_contacts=3, dur=0, duration=2))
     if family == 'pool':
         grp = ['all', 'male', 'female', 'under30', 'over30', 'uids_lo', 'uids_hi', 'uids_mid']   # callables and explicit uid lists
+        # round 6: explicit lists in any order; callables returning the BoolArr itself; groups without members
+        grp += ['uids_lo_desc', 'uids_hi_shuf', 'uids_mid_ilv', 'uids_hi_desc', 'b_male', 'b_female', 'b_under30', 'b_over30', 'b_nobody', 'b_infants', 'nobody']
         for lo, hi in ((0, 15), (15, None), (20, 50), (0, 40)):     # ss.AgeGroup objects, every cache setting
             grp.append(dict(age=[lo, hi], do_cache=rng.choice([None, True, False])))
         nets.append(dict(type='pool', src=rng.choice(grp), dst=rng.choice(grp), beta=rng.choice([0.0, 0.2, 0.6, 1.0]),
@@ -207,7 +209,23 @@ GROUPS = dict(
     female=lambda sim: sim.people.female.uids,
     under30=lambda sim: (sim.people.age < 30).uids,
     over30=lambda sim: (sim.people.age >= 30).uids,
+    # round 6: the documented style — the callable returns the BoolArr itself; groups that have no member at all / run empty
+    b_male=lambda sim: sim.people.male,
+    b_female=lambda sim: sim.people.female,
+    b_under30=lambda sim: sim.people.age < 30,
+    b_over30=lambda sim: sim.people.age >= 30,
+    b_nobody=lambda sim: sim.people.age >= 500,
+    b_infants=lambda sim: sim.people.age < 1,
+    nobody=lambda sim: (sim.people.age >= 500).uids,
 )
+
+
+def as_uid_array(g):
+    """ the members of a resolved group (MixingPool.src_uids / dst_uids) as an int array: a BoolArr denotes its true entries """
+    import starsim as ss
+    if isinstance(g, (ss.BoolArr, ss.IndexArr)):
+        g = g.uids
+    return np.array(g).astype(int)
 
 
 def pool_group(name, n_agents, shared=None):
@@ -216,9 +234,7 @@ def pool_group(name, n_agents, shared=None):
     if c12_groups.is_age(name):
         return c12_groups.mk_group(name, n_agents, shared if shared is not None else {}, None)
     if name.startswith('uids_'):
-        n = int(n_agents or 40)
-        lo, hi = dict(uids_lo=(0, n // 2), uids_hi=(n // 2, n), uids_mid=(n // 4, 3 * n // 4))[name]
-        return ss.uids(np.arange(lo, hi))
+        return ss.uids(c12_groups.declared_uids(name, n_agents))     # in the order the user lists them (round 6)
     return GROUPS[name]
 
 
@@ -574,7 +590,7 @@ class Recorder:
                 R.curpool = None; R.pool_obj = None
             rec['log_new'] = {d.name: [(s_, t_, float(k_)) for s_, t_, k_ in set(d.log.edges(keys=True)) - logs0[d.name]] for d in mp.diseases if d.name in logs0}
             rec['now'] = {d.name: float(d.now) for d in mp.diseases}
-            rec['src'] = np.array(mp.src_uids).astype(int); rec['dst'] = np.array(mp.dst_uids).astype(int)
+            rec['src'] = as_uid_array(mp.src_uids); rec['dst'] = as_uid_array(mp.dst_uids)
             rec['ret'] = int(out) if out is not None else None
             R.pools.append(rec)
             return out
@@ -904,12 +920,12 @@ def compare_pool(ctx, rec, idx, out):
             g = parse_kv(out[offg])
             ssrc, sdst, na = rec['spec']
             for side, key, spec, code in (('source', 'SRC', ssrc, rec['src']), ('destination', 'DST', sdst, rec['dst'])):
-                mg = [int(x) for x in g[key]]
-                if mg != [int(x) for x in code]:
+                mg = sorted(int(x) for x in g[key])      # a group is a set: the order an explicit list is held in (declared; ascending after a removal) is not observable
+                if mg != sorted(int(x) for x in code):
                     diff = sorted(set(mg) ^ set(int(x) for x in code))[:8]
                     return dict(why=f"pool {rec['pool']} step {rec['sti']}: the model resolves the {side} parameter {c12_groups.describe(spec)} to {len(mg)} agents, "
                                     f"MixingPool.step used {len(code)} (differing uids {diff})")
-            if [int(x) for x in g['C']] != mc:
+            if sorted(int(x) for x in g['C']) != sorted(mc):
                 return dict(why=f"pool {rec['pool']}/{dn}: poolStepG from the parameters gives cases {g['C'][:10]}, poolStep on the code's groups {mc[:10]}")
             ctx.count('pool_steps_from_parameters')
         if k >= executed:
@@ -1753,6 +1769,7 @@ def search(ctx):
     fams = ['plain', 'sexual', 'maternal', 'pool', 'mixed', 'churn']
     ev = dict(events=0, kernel_calls=0, pool_cases=0)
     fixed = c12_extra.fixed_scenarios(ctx.seed + 1) + [pool_churn_cfg(ctx.seed, 0), pool_churn_cfg(ctx.seed, 1), c12_extra.poolsmix_cfg(ctx.seed, 1),
+                                                       c12_extra.poolorder_cfg(ctx.seed, 1), c12_extra.poolbool_cfg(ctx.seed, 1),
                                                        c12_extra.betazero_cfg(ctx.seed, 1), c12_extra.betasched_cfg(ctx.seed, 2)]
     for k in range(n + len(fixed)):
         cfg = fixed[k] if k < len(fixed) else gen_cfg(ctx.rng, fams[k % len(fams)])
